@@ -721,7 +721,10 @@ pub fn inject(r: &mut Rng, t: &Tuple, sp: &Spelled, kind: &str) -> Option<String
                 Some(kv) => kv.clone(),
                 None => {
                     let k = gen_key(r);
-                    if ascii_lower(&k) == "checksum" {
+                    let lk = ascii_lower(&k);
+                    // the key must be new: sharing it with an empty-valued item would be the
+                    // unspecified "duplicate with one empty value" case, not this fault
+                    if lk == "checksum" || s.items.iter().any(|i| ascii_lower(i.split('=').next().unwrap()) == lk) {
                         return None;
                     }
                     s.items.push(format!("{k}=x"));
